@@ -99,7 +99,14 @@ def r2_new_sessions(ctx):
         for s in subterms(t):
             if isinstance(s, tuple) and s[0] == "var" and len(s) > 2:
                 terms.append(o.init_of(s[2]))
-        ok = any(is_call_term(s, *global_readers) for tt in terms for s in subterms(tt))
+        here = {c.bb for c in body.calls() if (c.norm or "").endswith(global_readers)}
+        fresh = any(is_call_term(s, *global_readers) and s[2] in here for tt in terms for s in subterms(tt))
+        cached = [s for tt in terms for s in subterms(tt) if is_call_term(s, "OnceLock::<T>::get_or_init", "OnceLock::<T>::get", "OnceCell::<T>::get_or_init", "OnceCell::<T>::get", "LazyLock", "Lazy::<T>::force")]
+        ok = fresh and not cached
+        if cached:
+            ctx.ob("R19.2", "create_new_session:%s-reads-the-cell-each-time" % label, False, cs[0].site,
+                   "the scheme given to %s goes through a write-once cache (`%s`): the first pushed scheme is remembered for the life of the Client, so a second, different push never reaches sessions opened later" % (label, cached[0][1].split("::")[-1]))
+            continue
         ctx.ob("R19.2", "create_new_session:%s-uses-current-scheme" % label, ok, cs[0].site,
                "the scheme given to %s depends on the process-wide scheme cell" % label if ok else
                "the scheme given to %s is `%s`, frozen when the Client was built: a session opened after a push still announces the old md5, is pushed the scheme again, and shapes its first packets with the old scheme" % (label, fmt(t)[:60]))
@@ -169,8 +176,41 @@ def r4_r5_client_adopts(ctx):
            "a scheme that does not parse %s" % ("returns an error (which closes the session)" if err_rets else "triggers %s" % eff[0].norm))
 
 
+def r7_scheme_identity(ctx):
+    """what is announced (md5), what is pushed (raw_scheme) and what is parsed are the same bytes"""
+    body = ctx.body("R19.7", PF + "new")
+    if body is None:
+        return
+    o = ctx.origins(body)
+    from .common import param
+    raw = param(body, 0)
+    md = calls_norm(body, "md5::compute")
+    fb = calls_norm(body, "StringMap::from_bytes")
+    okm = bool(md) and var_name(o.of_operand(md[0].args[0])) == raw
+    okp = bool(fb) and var_name(o.of_operand(fb[0].args[0])) == raw
+    stored = None
+    for bi in body.reachable():
+        for st in body.blocks[bi]["stmts"]:
+            if st["s"] == "assign" and st["rv"]["r"] == "aggregate" and st["rv"]["kind"].get("adt", "").endswith("PaddingFactory"):
+                ops = {f: o.of_operand(op) for f, op in zip(st["rv"]["kind"]["fields"], st["rv"]["ops"])}
+                stored = ops.get("raw_scheme")
+    oks = stored is not None and is_call_term(stored, "::to_vec", "::to_owned", "Vec::from", "::into") and var_name(stored[3][0]) == raw
+    ok = okm and okp and oks
+    ctx.ob("R19.7", "PaddingFactory::new:md5-raw-and-parse-are-the-same-bytes", ok, md[0].site if md else "",
+           "md5::compute(raw_scheme), raw_scheme.to_vec() and StringMap::from_bytes(raw_scheme) all take the argument as given" if ok else
+           "the bytes hashed (%s), stored for pushing (%s) and parsed (%s) are not all the constructor's argument as given: the server pushes bytes whose md5 differs from the one it compares, so the client's next "
+           "session announces a different md5 and is pushed the scheme again, for ever" % (fmt(o.of_operand(md[0].args[0]))[:30] if md else None, fmt(stored)[:40], fmt(o.of_operand(fb[0].args[0]))[:30] if fb else None))
+    g = ctx.body("R19.7", PF + "raw_scheme")
+    if g is not None:
+        og = ctx.origins(g)
+        rets = [og._rvalue(rv, (), bi, 0, frozenset()) for kind, bi, si, rv in g.defs().get(0, []) if kind == "assign"]
+        okg = any("self.raw_scheme" in fmt(r) for r in rets) or any(is_call_term(("call", c.callee, 0, ()), "Deref>::deref") for c in g.calls())
+        ctx.ob("R19.7", "PaddingFactory::raw_scheme:returns-the-stored-bytes", okg, "", "raw_scheme() returns the stored field" if okg else "raw_scheme() does not return self.raw_scheme")
+
+
 def run(ctx):
     from . import C05
+    r7_scheme_identity(ctx)
     C05.r3_role(ctx)      # what gates shaping besides the packet index is a per-role constant (no sticky per-session latch)
     C05.r2_stop(ctx)      # stop() and the sizes come from the scheme currently installed in the session
     r1_replaceable(ctx)
